@@ -130,7 +130,9 @@ mod h {
     tree!(c11_and_then_map, 2, |a, b, c, k| a.and_then(b).map(move |x| k_add(x, k)), |sa, sb, sc, k, req| sa.out(req).and_then(|x| sb.out(x)).map(|x| k_add(x, k)), true);
     tree!(c11_map_and_then, 2, |a, b, c, k| a.map(move |x| k_add(x, k)).and_then(b), |sa, sb, sc, k, req| sa.out(req).map(|x| k_add(x, k)).and_then(|x| sb.out(x)), false);
     tree!(c11_and_then_map_err, 2, |a, b, c, k| a.and_then(b).map_err(move |e| k_add(e, k)), |sa, sb, sc, k, req| sa.out(req).and_then(|x| sb.out(x)).map_err(|e| k_add(e, k)), true);
-    #[cfg(feature = "thorough")]
+    // measured on 2026-09-27: does not fit the thorough wall cap on this machine (time-out after 40 min / CBMC out of memory): kept
+    // for reference under its own feature, not part of any tier
+    #[cfg(feature = "oversize")]
     tree!(c11_and_then_and_then, 3, |a, b, c, k| a.and_then(b).and_then(c), |sa, sb, sc, k, req| sa.out(req).and_then(|x| sb.out(x)).and_then(|x| sc.out(x)), true);
     tree!(c11_apply_fn, 1, |a, b, c, k| apply_fn(a, move |r: u8, s: &Leaf| s.call(k_add(r, k))), |sa, sb, sc, k, req| sa.out(k_add(req, k)), false);
     tree!(c11_boxed, 2, |a, b, c, k| boxed::service(a.and_then(b)), |sa, sb, sc, k, req| sa.out(req).and_then(|x| sb.out(x)), true);
@@ -271,7 +273,9 @@ mod h {
     ftree!(c11_fac_map_init_err, 1, |fa, fb, k| fa.map_init_err(move |e| k_add(e, k)), |cfg, k| cfg, |ia, ib, k| first_err(ia, None).map(|e| k_add(e, k)), |sa, sb, k, req| sa.out(req));
     ftree!(c11_fac_map_config, 1, |fa, fb, k| map_config(fa, move |c: u8| k_add(c, k)), |cfg, k| k_add(cfg, k), |ia, ib, k| first_err(ia, None), |sa, sb, k, req| sa.out(req));
     ftree!(c11_fac_apply_fn, 1, |fa, fb, k| apply_fn_factory(fa, move |r: u8, s: &Leaf| s.call(k_add(r, k))), |cfg, k| cfg, |ia, ib, k| first_err(ia, None), |sa, sb, k, req| sa.out(k_add(req, k)));
-    #[cfg(feature = "thorough")]
+    // measured on 2026-09-27: does not fit the thorough wall cap on this machine (time-out after 40 min / CBMC out of memory): kept
+    // for reference under its own feature, not part of any tier
+    #[cfg(feature = "oversize")]
     ftree!(c11_fac_boxed, 2, |fa, fb, k| boxed::factory(fa.and_then(fb)), |cfg, k| cfg, |ia, ib, k| first_err(ia, Some(ib)), |sa, sb, k, req| sa.out(req).and_then(|x| sb.out(x)));
 
     // apply_cfg_factory(factory, f): build the inner service (unit config), WAIT until it reports ready, then hand (cfg, &service) to
